@@ -177,6 +177,10 @@ def run(ctx):
                 texts.append(g.render(stmts))
         for name, t in pf.corpus_texts()[: (40 if ctx.thorough() else 12)]:
             texts.append(t)
+        # characters outside ASCII in values, names of units and comments: the tools read files, so the bytes
+        # they see must become the text the library sees
+        texts += ['a = "caf\xe9 \xb5m 12\xb0"\nEND\n', 'GROUP = g\n  note = "\u2603 snow"\n  x = 1.5 <\xb5m>\nEND_GROUP\nEND\n',
+                  '/* \xe9 */ a = 1\nb = (\"\xfc\", 2)\n']
         paths = []
         for i, t in enumerate(texts):
             p = os.path.join(tmp, "f%03d.lbl" % i)
